@@ -550,15 +550,29 @@ def materialize(casedir, sc, repo_name="repo", keep_local=False):
     for rel, data in sc["files"].items():
         with open(os.path.join(repo, rel), "wb") as f:
             f.write(data)
-    local = os.path.join(ldir, NAME)
     if not keep_local:
         other = os.path.join(casedir, "repo2")
         if os.path.isdir(other):
             shutil.rmtree(other)
         if sc["local0"] is not None:
-            with open(local, "wb") as f:
+            with open(os.path.join(ldir, NAME), "wb") as f:
                 f.write(sc["local0"])
-    return "file://" + os.path.join(repo, NAME), local, tmpd
+        # every behaviour gets URLs and a local path of its own (symbolic links onto the re-used
+        # directories): state that the code under test might keep per URL / per file name can then
+        # leak between the calls of ONE behaviour only, and a recorded case reproduces in isolation
+        for e in os.scandir(casedir):
+            if e.is_symlink():
+                os.unlink(e.path)
+        _SEQ[0] += 1
+        os.symlink("local", os.path.join(casedir, "l%d" % _SEQ[0]))
+    link = os.path.join(casedir, "u%d%s" % (_SEQ[0], "" if repo_name == "repo" else "b"))
+    if not os.path.islink(link):
+        os.symlink(repo_name, link)
+    local = os.path.join(casedir, "l%d" % _SEQ[0], NAME)
+    return "file://" + os.path.join(link, NAME), local, tmpd
+
+
+_SEQ = [0]
 
 
 def _call(remote, local):
